@@ -83,6 +83,55 @@ def runtime_statics(prog, chk, rid):
     return n
 
 
+def no_process_state(prog, chk, rid):
+    """No state outside the database: no function-local static that is computed from a parameter / this or assigned
+    after initialisation, no mutable namespace-scope variable (a process-wide memo of what was detected or read
+    answers the next call from memory, not from the file)."""
+    # statics
+    runtime_statics(prog, chk, rid)
+    n_static = 0
+    for f in prog.functions.values():
+        if f.body is None or f.is_pattern or '/schema/' in (f.file or ''):
+            continue
+        for n in walk(f.body):
+            if n.get('kind') == 'VarDecl' and n.get('storageClass') == 'static':
+                n_static += 1
+                t = n.get('type') or ''
+                if not t.startswith('const ') and not n.get('constexpr'):
+                    # assigned anywhere?
+                    assigned = False
+                    for x in walk(f.body):
+                        if x.get('kind') in ('BinaryOperator', 'CompoundAssignOperator') and (x.get('opcode') or '').endswith('=') \
+                                and x.get('opcode') not in ('==', '!=', '<=', '>='):
+                            l = strip(children(x)[0], explicit=True)
+                            if (l.get('referencedDecl') or {}).get('id') == n.get('id'):
+                                assigned = True
+                        if x.get('kind') == 'CXXOperatorCallExpr' and \
+                                (strip(children(x)[0]).get('referencedDecl') or {}).get('name') == 'operator=':
+                            l = strip(children(x)[1], explicit=True)
+                            if (l.get('referencedDecl') or {}).get('id') == n.get('id'):
+                                assigned = True
+                    inst = 'static %s %s in %s' % (t, n.get('name'), _short(f.qualname))
+                    if assigned:
+                        chk.violation(rid, '%s|mutable static %s' % (_short(f.qualname), n.get('name')), locstr(n),
+                                      inst + ' is assigned after initialisation: state outside the database')
+                    else:
+                        chk.ok(rid, inst + ' (never assigned)', locstr(n))
+    for qn, v in prog.var_nodes.items():
+        loc = v.get('loc')
+        if not loc or '/src/' not in loc[0]:
+            continue
+        t = v.get('type') or ''
+        if t.startswith('const ') or v.get('constexpr'):
+            continue
+        ctx = qn.rsplit('::', 1)[0]
+        if ctx in prog.records and v.get('storageClass') != 'static':
+            continue
+        chk.violation(rid, '%s|mutable global' % _short(qn), locstr(v),
+                      'namespace-scope variable %s of non-const type %s: state outside the database' % (qn, t))
+
+
+
 def handles_stateless(prog, chk, rid):
     """Handles, implementation classes and table classes hold only ids, shared pointers and table handles (no copy
     of stored data): what a getter answers is read from the database at the call."""
@@ -130,49 +179,7 @@ def run(tier='quick'):
 
     # ---- N1 ------------------------------------------------------------------------------
     handles_stateless(prog, chk, N1)
-    # statics
-    runtime_statics(prog, chk, N1)
-    n_static = 0
-    for f in prog.functions.values():
-        if f.body is None or f.is_pattern or '/schema/' in (f.file or ''):
-            continue
-        for n in walk(f.body):
-            if n.get('kind') == 'VarDecl' and n.get('storageClass') == 'static':
-                n_static += 1
-                t = n.get('type') or ''
-                if not t.startswith('const ') and not n.get('constexpr'):
-                    # assigned anywhere?
-                    assigned = False
-                    for x in walk(f.body):
-                        if x.get('kind') in ('BinaryOperator', 'CompoundAssignOperator') and (x.get('opcode') or '').endswith('=') \
-                                and x.get('opcode') not in ('==', '!=', '<=', '>='):
-                            l = strip(children(x)[0], explicit=True)
-                            if (l.get('referencedDecl') or {}).get('id') == n.get('id'):
-                                assigned = True
-                        if x.get('kind') == 'CXXOperatorCallExpr' and \
-                                (strip(children(x)[0]).get('referencedDecl') or {}).get('name') == 'operator=':
-                            l = strip(children(x)[1], explicit=True)
-                            if (l.get('referencedDecl') or {}).get('id') == n.get('id'):
-                                assigned = True
-                    inst = 'static %s %s in %s' % (t, n.get('name'), _short(f.qualname))
-                    if assigned:
-                        chk.violation(N1, '%s|mutable static %s' % (_short(f.qualname), n.get('name')), locstr(n),
-                                      inst + ' is assigned after initialisation: state outside the database')
-                    else:
-                        chk.ok(N1, inst + ' (never assigned)', locstr(n))
-    for qn, v in prog.var_nodes.items():
-        loc = v.get('loc')
-        if not loc or '/src/' not in loc[0] or '/schema/' in loc[0]:
-            continue
-        t = v.get('type') or ''
-        if t.startswith('const ') or v.get('constexpr'):
-            continue
-        ctx = qn.rsplit('::', 1)[0]
-        if ctx in prog.records and v.get('storageClass') != 'static':
-            continue
-        chk.violation(N1, '%s|mutable global' % _short(qn), locstr(v),
-                      'namespace-scope variable %s of non-const type %s: state outside the database' % (qn, t))
-
+    no_process_state(prog, chk, N1)
     # ---- N2 ------------------------------------------------------------------------------
     for f in prog.functions.values():
         if f.body is None or f.is_pattern:
